@@ -224,36 +224,41 @@ def exact_cells(bounds, tbvals, p, mask):
             c = min(max(math.floor(q), 0), n - 1)
             cell.append(c)
             near = min(abs(q - math.floor(q)), abs(math.ceil(q) - q)) if -1 <= q <= n else 1
-            if not inregime and near < Fraction(1, 1 << 30) * max(1, abs(q)):
+            if not inregime and near < Fraction(1, 1 << 30) * max(1, abs(q)) \
+                    and not floats_exact_dim(row, t, p, d):
                 safe = False
         out.append((cell, safe))
     return out
 
 
-def floats_exact(row, t, p):
-    """the binary64 pipeline of one row, checked operation by operation against exact rationals"""
+def floats_exact_dim(row, t, p, d):
+    """the binary64 pipeline of one row in dimension d, checked operation by operation against
+    exact rationals"""
     n = 1 << p
-    for d in (0, 1):
-        a, b, lo, hi = row[d], row[d + 2], t[d], t[d + 2]
-        ssum = a + b
-        if Fraction(ssum) != Fraction(a) + Fraction(b):
-            return False
-        mid = ssum / 2.0
-        if Fraction(mid) != Fraction(ssum) / 2:
-            return False
-        w = hi - lo
-        if Fraction(w) != Fraction(hi) - Fraction(lo):
-            return False
-        r = n / w
-        if Fraction(r) != Fraction(n) / Fraction(w):
-            return False
-        dd = mid - lo
-        if Fraction(dd) != Fraction(mid) - Fraction(lo):
-            return False
-        sc = dd * r
-        if not math.isfinite(sc) or Fraction(sc) != Fraction(dd) * Fraction(r):
-            return False
+    a, b, lo, hi = row[d], row[d + 2], t[d], t[d + 2]
+    ssum = a + b
+    if not math.isfinite(ssum) or Fraction(ssum) != Fraction(a) + Fraction(b):
+        return False
+    mid = ssum / 2.0
+    if Fraction(mid) != Fraction(ssum) / 2:
+        return False
+    w = hi - lo
+    if not math.isfinite(w) or w == 0 or Fraction(w) != Fraction(hi) - Fraction(lo):
+        return False
+    r = n / w
+    if Fraction(r) != Fraction(n) / Fraction(w):
+        return False
+    dd = mid - lo
+    if not math.isfinite(dd) or Fraction(dd) != Fraction(mid) - Fraction(lo):
+        return False
+    sc = dd * r
+    if not math.isfinite(sc) or Fraction(sc) != Fraction(dd) * Fraction(r):
+        return False
     return True
+
+
+def floats_exact(row, t, p):
+    return floats_exact_dim(row, t, p, 0) and floats_exact_dim(row, t, p, 1)
 
 
 # --------------------------------------------------------------------------
@@ -282,7 +287,7 @@ def frame_elements(kind, x0, y0, x1, y1):
 
 def gen_arrays(rep, tier):
     rng = rep.rng
-    nrand = 45 if tier == 'quick' else 1500
+    nrand = 45 if tier == 'quick' else 600
     out = []
     # small fixed corpus: empty, all-missing, single point, horizontal / vertical line, far outside
     out.append(('point', 'float64', [], 0, 'empty'))
@@ -358,7 +363,10 @@ def tb_variants(rng, arr, tag):
         out.append(('pow2', [0.0, 0.0, 8.0, 8.0]))
         return out
     if tag == 'far':
-        return [('unit', [0.0, 0.0, 1.0, 1.0]), ('pow2', [-4.0, -4.0, 4.0, 12.0]), ('default', None)]
+        # fixed corpus: every listed order, no random choice
+        return ([('unit', [0.0, 0.0, 1.0, 1.0], q) for q in (31, 10, 15, 1)] +
+                [('pow2', [-4.0, -4.0, 4.0, 12.0], q) for q in (31, 10)] +
+                [('default', None, q) for q in (31, 15)])
     x0, y0, x1, y1 = tb
     out.append(('own', tb))
     kx, ky = rng.randint(-3, 8), rng.randint(-3, 8)
@@ -409,11 +417,12 @@ def run(rep):
             rep.count('bounds_error:' + type(e).__name__)
             continue
         rep.count(kind)
-        for label, vals in tb_variants(rng, arr, tag):
+        for variant in tb_variants(rng, arr, tag):
+            label, vals = variant[0], variant[1]
             pcycle += 1
             p = (pcycle % 31) + 1 if rng.random() < 0.7 else rng.choice([1, 2, 10, 15, 30, 31])
-            if tag == 'far':
-                p = rng.choice([31, 10, 15])
+            if len(variant) > 2:
+                p = variant[2]
             forms = [None] if vals is None else [rng.choice(SEQ_FORMS)]
             if vals is not None and rng.random() < 0.3:
                 forms = SEQ_FORMS
